@@ -420,6 +420,8 @@ def eval : Nat → EnvId → Node → EvalM RVal
     match evalFor fuel env ids e body what pos s0 with
     | .ok v s' => .ok v (restoreVars env hidden s')
     | .err v m p t s' => .err v m p t (restoreVars env hidden (ids.foldl (fun s x => s.remove env x) s'))
+    -- a syntax error raised at run time (the body required a module that does not parse) is cleaned up after like a runtime error (repair e939333)
+    | .fail (.syn e) s' => .fail (.syn e) (restoreVars env hidden (ids.foldl (fun s x => s.remove env x) s'))
     | other => other
   | fuel + 1, env, .call fnN names args pos => do
     let fn ← eval fuel env fnN
